@@ -11,11 +11,11 @@ func init() {
 			{Name: "query-all-interleavings", Pkg: "queryer", Files: []string{"queryer/c11.go"}, Entry: "VerifQuery", Mode: "all", Race: true, Native: true,
 				Quick:    map[string]int{"nmax": 3, "mmax": 3},
 				Thorough: map[string]int{"nmax": 4, "mmax": 4},
-				Reach:    []string{"some call failed", "several chunks", "empty input"}, Functions: fns},
+				Reach:    []string{"some call failed", "several chunks", "empty input", "second call"}, Functions: fns},
 			{Name: "query-canonical-schedule", Pkg: "queryer", Files: []string{"queryer/c11.go"}, Entry: "VerifQuery", Mode: "seq", Native: true,
 				Quick:    map[string]int{"nmax": 7, "mmax": 4},
 				Thorough: map[string]int{"nmax": 12, "mmax": 12},
-				Reach:    []string{"some call failed", "several chunks", "empty input"}, Functions: fns},
+				Reach:    []string{"some call failed", "several chunks", "empty input", "second call"}, Functions: fns},
 			{Name: "splice-inductive-step", Pkg: "queryer", Files: []string{"queryer/c11.go"}, Entry: "VerifSplice", Mode: "seq",
 				Quick:    map[string]int{"nmax": 8},
 				Thorough: map[string]int{"nmax": 12},
